@@ -677,7 +677,13 @@ def validate(R, b, v, bs, sk, sp, cl):
     conv = sp["from"] or sp["try_from"]
     ok = False
     al0 = set(strip_refs(canon(v, a)) for a in v.alts(strip_refs(got["arg0"])))
-    if src is not None or (a0[0] == "field" and a0[2] == "Ok" and str(a0[3]) == "0") or \
+    self_ty_path = None
+    try:
+        self_ty_path = b.crate.types[b.impl_self]["path"] if b.impl_self is not None and b.crate.types[b.impl_self]["k"] == "adt" else None
+    except Exception:
+        self_ty_path = None
+    built_here = bool(al0) and self_ty_path is not None and all(a[0] == "agg" and a[1] == "adt" and a[3] == self_ty_path for a in al0)
+    if src is not None or built_here or (a0[0] == "field" and a0[2] == "Ok" and str(a0[3]) == "0") or \
             (al0 and all(a[0] == "field" and a[2] == "Ok" and isinstance(a[1], tuple) and a[1][0] == "call" for a in al0)):
         ok = True  # value that survived the container's own `?` (or the explicit match that stands for it)
     elif conv and a0[0] == "call":
